@@ -54,6 +54,9 @@ def run_both(cases):
     return impl, model
 
 
+SHRINK_DEADLINE = [None]   # wall-clock limit for all shrinking of one run (the unshrunk case is a valid replay too)
+
+
 def shrink(prop, cfg, case, mode):
     """mode 'oracle': keep while the oracle still fails on the implementation;
     mode 'diff': keep while implementation and model still disagree on the projection."""
@@ -66,7 +69,7 @@ def shrink(prop, cfg, case, mode):
         io = V.run_cases(V.HBIN, [c], jobs=1).get((c.kind, c.cid), [])
         mo = V.run_cases(V.DRIVER, [c], jobs=1).get((c.kind, c.cid), [])
         return V.first_diff(cfg["proj"](c, strip(io)), cfg["proj"](c, strip(mo))) is not None
-    body = V.ddmin(case.body, pred, max_tests=cfg.get("shrink_tests", 250))
+    body = V.ddmin(case.body, pred, max_tests=cfg.get("shrink_tests", 250), deadline=SHRINK_DEADLINE[0])
     return Case(case.kind, case.cid + "-min", body, case.meta)
 
 
@@ -202,6 +205,9 @@ def main():
     stats["replay_differences"] = replay_diffs
 
     # 4./5. classify: known findings, violations; search for failing input on disagreement ------
+    SHRINK_DEADLINE[0] = time.time() + (75 if tier == "quick" else 900)
+    ora.sort(key=lambda cf: len(cf[0].body))     # report (and shrink) the smallest failing cases
+    dis.sort(key=lambda cd: len(cd[0].body))
     known = [k for k in V.load_known_findings() if k["property"] == prop and k["status"] == "known"]
     known_hits = {k["id"]: 0 for k in known}
     reported = 0
